@@ -20,7 +20,7 @@ STATS = ["np.mean", "np.median", "np.max", "range", "second_smallest", "first", 
 
 @st.composite
 def inner_spec(draw, inner, n=None):
-    if inner in ("FixedChangeDetector", "IndexLabelChangeDetector"):
+    if inner in ("FixedChangeDetector", "IndexLabelChangeDetector", "SupervisedChangeDetector"):
         if n is None:
             n = draw(st.integers(2, 40))
         k = draw(st.integers(0, min(6, n - 1)))
@@ -33,9 +33,12 @@ def inner_spec(draw, inner, n=None):
 @st.composite
 def cases(draw, tier):
     # all structural choices first, the bulk data last (see strategies/data.py)
-    inner = draw(st.sampled_from(["FixedChangeDetector", "IndexLabelChangeDetector", "PELT", "MovingWindow", "SeededBinarySegmentation"]))
-    fixed = inner in ("FixedChangeDetector", "IndexLabelChangeDetector")
+    inner = draw(st.sampled_from(["FixedChangeDetector", "IndexLabelChangeDetector", "PELT", "MovingWindow", "SeededBinarySegmentation",
+                                  "SupervisedChangeDetector"]))
+    fixed = inner in ("FixedChangeDetector", "IndexLabelChangeDetector", "SupervisedChangeDetector")
     ispec, n = draw(inner_spec(inner))
+    # a supervised user detector: the anomaliser is fitted with an annotation y, which its clone of the detector must receive
+    y_cpts = sorted(draw(st.lists(st.integers(1, max(1, n - 1)), min_size=1, max_size=4, unique=True))) if inner == "SupervisedChangeDetector" and n >= 2 else None
     if not fixed:
         n = draw(st.integers(n, max(n, 40)))
     stat = draw(st.sampled_from(STATS))
@@ -75,8 +78,10 @@ def cases(draw, tier):
         # fitted on the anomaliser's own training data and the user's object must stay as it is
         Xp, _ = draw(D.structured_matrix(npre, 1, max_shifts=2, max_spikes=1, max_bumps=0))
         prefit = [row[0] * 3.0 for row in Xp]
+    if y_cpts is not None:
+        second, ispec2, x2 = None, None, None
     return {"inner": ispec, "stat": stat, "lo": lo, "hi": hi, "x": x, "prefit": prefit, "container": container, "index": index,
-            "second": second, "inner2": ispec2, "x2": x2}
+            "second": second, "inner2": ispec2, "x2": x2, "y_cpts": y_cpts}
 
 
 def to_container(x, container, index_spec):
@@ -112,8 +117,12 @@ def check(case):
             prefit = None
             user_det = K.build(case["inner"])
     params_before = repr(sorted(user_det.get_params(deep=True).items(), key=lambda kv: kv[0]))
+    import pandas as pd
+
+    y_fit = pd.DataFrame({"ilocs": [int(c) for c in case["y_cpts"]]}) if case.get("y_cpts") else None
     with sut("StatThresholdAnomaliser.fit/predict"):
-        det = StatThresholdAnomaliser(user_det, stat, lo, hi).fit(Xc)
+        det = StatThresholdAnomaliser(user_det, stat, lo, hi)
+        det = det.fit(Xc, y_fit) if y_fit is not None else det.fit(Xc)
         y = det.predict(Xc)
     # the user's detector object is neither fitted nor altered
     if prefit is None:
@@ -133,7 +142,9 @@ def check(case):
         """Reference model: out-of-range segments of the segmentation found by a clone of the user's detector (as it
         is now) fitted on `train` and applied to `test` (plain copies of the numbers)."""
         with sut("clone of the wrapped detector fit/predict"):
-            ref_det = user_det.clone().fit(np.asarray(train, dtype=float).reshape(-1, 1))
+            ref_det = user_det.clone()
+            ref_det = ref_det.fit(np.asarray(train, dtype=float).reshape(-1, 1), y_fit) if y_fit is not None else \
+                ref_det.fit(np.asarray(train, dtype=float).reshape(-1, 1))
             cpts = [int(v) for v in ref_det.predict(np.asarray(test, dtype=float).reshape(-1, 1))["ilocs"].tolist()]
         bounds = [0] + cpts + [len(test)]
         want, near = [], False
